@@ -20,6 +20,9 @@ expected one; holes H_x are translated):
       (A ++ B) ++ <rest> (list concatenation is associative: trusted here, proved where the model is compared).
   align_grids       : template = min / max over the OMS list, the loop with two independent `if`s calling insert_left /
       insert_right, `return oms_list`; translated holes = the two generator bodies, both conditions, both pad lists.
+  build_oms_list    : only its while loop (the walk from a ROADM to the next): template = add_element, the UNCONDITIONAL
+      `nd_out.oms_id = oms_id; nd_out.oms = oms`, the advance of nd_in / nd_out; translated hole = the filter on the
+      successor's uid.
   find_network_freq_range : template = the collection of the bands of all amplifiers and the two comprehensions;
       translated holes = the two projected keys; `min(..), max(..)` over the lists (ValueError when empty).
 """
@@ -393,6 +396,48 @@ Definition g_find_network_freq_range (amp_bands : list band) : res (Q * Q) :=
 """]
 
 
+# ------------------------------------------------------------------ the walk of build_oms_list
+WALK_T = """
+while not isinstance(nd_out, Roadm):
+    oms.add_element(nd_out)
+    nd_out.oms_id = oms_id
+    nd_out.oms = oms
+    n_temp = nd_out
+    nd_out = next(n[1] for n in network.edges([n_temp]) if H_keep)
+    nd_in = n_temp
+"""
+WALK_UIDS = {'n[1].uid': 's', 'nd_in.uid': 'nd_in', 'nd_out.uid': 'nd_out', 'n_temp.uid': 'nd_out'}
+
+
+def gen_walk(tree):
+    fn = find(tree, 'build_oms_list')
+    loops = [x for x in ast.walk(fn) if isinstance(x, ast.While)]
+    if len(loops) != 1:
+        raise Unsupported('build_oms_list: expected exactly one while loop (the walk to the next ROADM)')
+    # the element is recorded in the OMS and its oms / oms_id are (re)written unconditionally at every step
+    b = match_template(WALK_T, [loops[0]], 'the walk of build_oms_list')
+    k = b['H_keep']
+    if not (isinstance(k, ast.Compare) and len(k.ops) == 1 and isinstance(k.ops[0], (ast.NotEq, ast.Eq))):
+        raise Unsupported('filter of the walk is not an (in)equality of uids')
+    ops = []
+    for x in (k.left, k.comparators[0]):
+        d = ast.unparse(x)
+        if d not in WALK_UIDS:
+            raise Unsupported(f'filter of the walk: operand {d}')
+        ops.append(WALK_UIDS[d])
+    test = f'({ops[0]} =? {ops[1]})'
+    if isinstance(k.ops[0], ast.NotEq):
+        test = f'(negb {test})'
+    return [f"""(* {SRC}: build_oms_list, one step of the walk: next(n[1] for n in network.edges([nd_out]) if <filter>)
+   (the statements around it - add_element, nd_out.oms_id = oms_id, nd_out.oms = oms, unconditionally - are matched) *)
+Definition g_walk_next (nd_in nd_out : Z) (succs : list Z) : res Z :=
+  match filter (fun s => {test}) succs with
+  | [] => Err "StopIteration"
+  | nx :: _ => Ok nx
+  end.
+"""]
+
+
 HEADER = """(* GENERATED on every run by harness/pygen_c15.py from gnpy/topology/spectrum_assignment.py of /repo - do not edit. *)
 From Coq Require Import QArith.
 From Verif Require Import Prelude Model.Spectrum Model.Oms.
@@ -415,6 +460,7 @@ def generate(repo=None):
     out += gen_cob(tree)
     out += gen_align(tree)
     out += gen_fnr(tree)
+    out += gen_walk(tree)
     return '\n'.join(out)
 
 
